@@ -9,6 +9,7 @@
      ProofsWriter  the writer: the tail is an encoder stream, sync points are frame boundaries
      ProofsNames   segment names (consecutive sequence numbers), isValidSeq, searchIndex
      ProofsSegs    several segments: the crc chained across files
+     ProofsSector  zeroed 8-aligned ranges: the first damaged frame's length field is intact or all zero
      ProofsFlip    a bit flip inside a record's Data is always detected
      ProofsLog     ReadAll's entry placement
      ProofsReadAll ReadAll = fold of its loop body over the decoder's records
@@ -16,7 +17,13 @@
      ProofsHistory histories that stay in the first segment: explicit stream, sync points, directory
      ProofsAppend  reopening for append: zero tail, ReadAll on a stream incl. the continued crc, two generations
      ProofsCapstone end to end: crash cut at any offset -> reopen = error or effect(prefix >= synced)
+     ProofsMulti1  truncation lemma for any start crc; decoding a chain of segment files; what cut() writes
+     ProofsMulti2  the global invariant of a history over all its segment files (every cut, both fsync modes)
+     ProofsMulti3  ReadAll's fold over a chain of segments with their heads = effect over the logical records
+     ProofsMulti4  end to end for any number of segments (zero snapshot): Open selects all files, Repair on the
+                   lone tail, crash cut behind the tail's sync point -> error or effect(prefix >= synced)
      ProofsRefute  witnesses against the full statement (Spec.C05_full) *)
 From ZV Require Export Wal.ProofsCrc Wal.ProofsProto Wal.ProofsFrame Wal.ProofsDecode Wal.ProofsTorn
-  Wal.ProofsPrefix Wal.ProofsRepair Wal.ProofsWriter Wal.ProofsNames Wal.ProofsSegs Wal.ProofsFlip Wal.ProofsLog Wal.ProofsRefute
-  Wal.ProofsReadAll Wal.ProofsEffect Wal.ProofsHistory Wal.ProofsAppend Wal.ProofsCapstone.
+  Wal.ProofsPrefix Wal.ProofsRepair Wal.ProofsWriter Wal.ProofsNames Wal.ProofsSegs Wal.ProofsSector Wal.ProofsFlip Wal.ProofsLog Wal.ProofsRefute
+  Wal.ProofsReadAll Wal.ProofsEffect Wal.ProofsHistory Wal.ProofsAppend Wal.ProofsCapstone
+  Wal.ProofsMulti1 Wal.ProofsMulti2 Wal.ProofsMulti3 Wal.ProofsMulti4.
